@@ -33,9 +33,10 @@ def ctie(r, quick):
     n = 1500 if quick else 20000
     rc, out, err = run_bin("c10", ["ctie", n], seed=r.seed, timeout=1200)
     lines = json_lines(out)
-    cases = [l for l in lines if "toks" in l]
+    cases = [l for l in lines if "toks" in l and l.get("relex")]
+    norelex = sum(1 for l in lines if "toks" in l and not l.get("relex"))
     summ = next((l for l in lines if l.get("summary")), {})
-    if rc != 0 or not summ:
+    if rc != 0 or not summ or norelex:
         r.broken_obligation("tie-harness:ctie", "c10 ctie failed to run", (out + err)[-2000:])
         return
     if not cases:
@@ -44,9 +45,9 @@ def ctie(r, quick):
     shard = 250
     jobs = []
     for si, ch in enumerate(chunks(cases, shard)):
-        body = ";\n".join("(%s, %s)" % (c["toks"], coq_codes(c["out"])) for c in ch)
+        body = ";\n".join("(%s, %s, %s)" % (c["toks"], coq_codes(c["out"]), c["relex"]) for c in ch)
         text = ("From Coq Require Import List NArith Bool. Import ListNotations.\nFrom UV Require Import Model.Fmt.\n"
-                "Definition cases : list (list token * list N) := [\n%s\n].\n"
+                "Definition cases : list (list token * list N * list token) := [\n%s\n].\n"
                 "Eval vm_compute in (tie_failing 0%%N cases).\n" % body)
         jobs.append(("c10_ctie_%d" % si, text))
     mism = []
@@ -119,7 +120,7 @@ def vtie(r, quick):
 # ---------------------------------------------------------------- search
 
 def search(r, quick):
-    n = 150 if quick else 3000
+    n = 120 if quick else 2500
     args = ["search", n, "--threads", max(4, min(14, NCPU - 2))]
     if not quick:
         args += ["--configs", "all"]
